@@ -290,7 +290,7 @@ fn trunc(s: &str) -> String {
 pub fn run(ctx: &mut Ctx) {
     let unary = unary_functions();
     let binary = binary_functions();
-    let n = ctx.budget(6_000, 250_000);
+    let n = if ctx.miri { ctx.miri_cases(2) } else { ctx.budget(100_000, 2_000_000) };
     let pcfg = PathCfg { max_steps: 3, filters: true, big_indices: false };
     for i in 0..n {
         if !ctx.next_case() {
